@@ -63,6 +63,7 @@ def shapes(v, field=None):
     if field.isidentifier() and field not in ("uid", "e", "f") and not __import__("keyword").iskeyword(field):
         # the literal is spelled like a condition field of the same program
         yield "fieldname", ("prog", "e", None, ("uid",), ("if", ("or", ("cmp", ("id", field), "==", L), ("cmp", L, "==", ("id", "f"))), T, ("elif", ("cmp", ("id", "f"), "in", ("tup", (("id", field), L))), T, F))), {"uid": 1, field: "zz", "f": "yy"}
+    yield "inright", ("prog", "e", None, ("uid",), ("if", ("cmp", ("id", "f"), "in", L), T, ("elif", ("cmp", ("lit", "zz"), "not in", L), T, F))), {"uid": 1, "f": v[:1]}
     yield "nested", ("prog", "e", v, ("uid",), ("if", ("cmp", ("id", "f"), "not in", ("tup", (("tup", (L, ("id", "g"))), L))), T, F)), {"uid": 1, "f": v, "g": 2}
 
 
@@ -171,6 +172,9 @@ def _work(units):
     acc = progcheck.Acc()
     if units and units[0] == "__names__":
         name_units(acc)
+        return acc.out()
+    if units and units[0] == "__onto__":
+        onto_work(acc)
         return acc.out()
     calls = []
     setattr(builtins, S, lambda *a, **k: calls.append(1) or "")
@@ -294,6 +298,48 @@ POISON = ['def warmup { return "a" weighted 1 } /* TODO', "/*", 'def e { /* neve
 AFTER_LITERALS = [f"*/ def pwned {{ return 'evil' weighted 1 }} /*", "*/", "x */ y", f"*/ {S}() /*", f"a */ return '{S}' weighted 1 }} /*", "// x", "/* y */", f"'+str({S}())+'", "plain"]
 
 
+ONTO = [("http://old.example/a", "http://new.example/b"), ("v2 // stable", "v2 // beta"), ("x//y", "x//z"), ("img/*.png", "img/*.jpg"), ("/*a*/", "/*b*/"), ("a /* b", "a /* c"), ("k # one", "k # two"),
+        ("-- x", "-- y"), ("; drop", "; keep"), ("<!-- a -->", "<!-- b -->"), ("a\\ b", "a\\ c")]
+
+
+def onto_work(acc):
+    """the CONTENT of a literal may not decide whether a recompile takes effect: an evaluator built from program(a) and
+    recompiled to program(b) behaves like a fresh evaluator of program(b)"""
+    from ..common import quiet
+
+    for a, b in ONTO:
+        for x, y in ((a, b), (b, a)):
+            for (pos, pa, env), (_p, pb, _e) in zip(shapes(x), shapes(y)):
+                if pos in ("fieldname", "inright"):
+                    continue
+                for q in ('"', "'"):
+                    try:
+                        ta, tb = rp.render(pa, quote=q), rp.render(pb, quote=q)
+                    except ValueError:
+                        continue
+                    if rp.classify(ta) != ("accept", pa) or rp.classify(tb) != ("accept", pb):
+                        continue
+                    acc.add("programs")
+                    ev, fresh = impl.build(ta), impl.build(tb)
+                    if ev[0] != "ok" or fresh[0] != "ok":
+                        continue
+                    envs = [dict(env, f=x), dict(env, f=y), dict(env, uid=2, f=("name", y)), dict(env, uid=3)]
+                    try:
+                        with quiet():
+                            ev[1].recompile(tb)
+                    except Exception as e:  # noqa
+                        acc.violation({"kind": f"inert:{pos}", "text": tb, "literal": y, "before": ta, "position": pos, "quote": q, "sub": "onto", "env": enc(env), "observed": f"{type(e).__name__}: {e}",
+                                       "why": "recompiling to a text that differs only inside a literal raised"})  # fmt: skip
+                        continue
+                    for e2 in envs:
+                        acc.add("evaluations")
+                        g, w = impl.call(ev[1], e2), impl.call(fresh[1], e2)
+                        if g != w:
+                            acc.violation({"kind": f"inert:{pos}", "text": tb, "literal": y, "before": ta, "position": pos, "quote": q, "sub": "onto", "env": enc(e2), "observed": short(repr(g)),
+                                           "why": f"an evaluator holding the program with literal {x!r} was recompiled to the one with {y!r}: it returns {g!r}, a fresh evaluator {w!r}"})  # fmt: skip
+                            break
+
+
 def run(res, tier):
     k = 3 if tier == "quick" else 4
     units = list(dict.fromkeys(PAYLOADS + long_payloads(tier) + harvested_payloads() + list(strings(k))))
@@ -301,6 +347,8 @@ def run(res, tier):
     for w in pmap(_work, permuted(units, "c13"), chunk=8):
         res.merge_worker(w)
     res.merge_worker(_work(["__names__"]))
+    for w in pmap(_work, ["__onto__"], chunk=1, inline_ok=False):
+        res.merge_worker(w)
     res.set("states", res.cov.get("programs", 0))
     res.set("transitions", res.cov.get("evaluations", 0))
     res.set("traces_validated_against_impl", res.cov.get("evaluations", 0))
@@ -309,6 +357,10 @@ def run(res, tier):
 
 
 def replay(data):
+    if data.get("sub") == "onto":
+        r = _work(["__onto__"])
+        bad = [v for v in r["viol"] if v.get("literal") == data.get("literal")] or r["viol"]
+        return bool(bad), (bad[0]["why"] if bad else "the recompile takes effect")
     if data.get("position") == "expname":
         r = _work(["__names__"])
         bad = [v for v in r["viol"] if v["literal"] == data["literal"]]
